@@ -19,6 +19,12 @@ REPLAYS = os.path.join(os.environ["VERIF_EVIDENCE_DIR"], "replays") if os.enviro
 PY = "/venv/bin/python"
 
 
+# asyncio reports "Task exception was never retrieved" for node failures the scheduler already re-raised: noise here
+import logging  # noqa: E402
+
+logging.getLogger("asyncio").setLevel(logging.CRITICAL)
+
+
 def sha_files(paths):
     h = hashlib.sha256()
     for p in sorted(paths):
